@@ -100,7 +100,10 @@ Near == {[Vec(ms) EXCEPT !.reps = 24] : ms \in UNION {{<<Bin(V20), StdCtl("gz"),
                                                       <<Bin(V20), NearCtl(nn[1]), NearDat(nn[2]), StdCtl("gz"), StdDat("gz")>>} : nn \in NearNames}}
 \* the control file ends without a newline, is followed by blank lines, or begins with one: the same paragraph
 Endings == {Vec(<<Bin(V20), [StdCtl(c) EXCEPT !.text = st], StdDat("gz")>>) : c \in {"gz", ""}, st \in {<<110>>, <<98>>, <<108>>}}
-C14Vecs == Endings \cup Near \cup Large \cup Straddle \cup Combos \cup Layouts \cup Versions \cup Missing \cup Orders \cup Ambiguous
+\* control.tar.gz / data.tar.gz written as a gzip file of TWO members (a valid .gz: the members' contents are concatenated)
+Gz2 == {Vec(<<Bin(V20), StdCtl("gz"), [StdDat("gz") EXCEPT !.comp = "gz2"]>>), Vec(<<Bin(V20), [StdCtl("gz") EXCEPT !.comp = "gz2"], StdDat("gz")>>),
+        Vec(<<Bin(V20), [StdCtl("gz") EXCEPT !.comp = "gz2"], [StdDat("gz") EXCEPT !.comp = "gz2"]>>)}
+C14Vecs == Gz2 \cup Endings \cup Near \cup Large \cup Straddle \cup Combos \cup Layouts \cup Versions \cup Missing \cup Orders \cup Ambiguous
 
 \* ---- C16 ------------------------------------------------------------------
 Roles == {"origin", "maint", "archive"}
